@@ -53,7 +53,9 @@ def run(tier, seed, only=None):
         'lookup styles': ['T.get(id=1) / T.get_for_update(id=1, ...)', 'T.get(lambda) / T.get_for_update(lambda, ...)',
                           'select(x for x in T if x.id == 1)[.for_update(nw, sk)][:]', 'T.select(lambda x: x.a > 0)[.for_update(...)].first()'],
         'flags': 'for_update, nowait, skip_locked (nowait+skip_locked together: TypeError expected), serializable, optimistic, immediate, writes: all 2^k combinations',
-        'mid': ['nothing', 'commit() between lookup and write', 'the body raises at its end (rollback)'] + (['flush() after the write + the lookup again', 'commit() + the lookup again'] if thorough else []),
+        'mid': ['nothing', 'commit() between lookup and write', 'the body raises at its end (rollback)',
+                'write the object, commit(), the lookup again (lock must be re-taken), write again' + ('' if thorough else ' (quick: only with nothing read before)')] +
+               (['flush() after the write + the lookup again', 'commit() + the lookup again (object only read before)'] if thorough else []),
         'read before the lookup': ['nothing', 'plain T.get(id=1) (object cached, not locked)', 'the same lookup without for_update (query result cached)',
                                    'an earlier session ran the same locking lookup without nowait/skip_locked (database-wide SQL caches warm)'] +
                                   (['plain select of all rows', 'a locking lookup of another style in the same session'] if thorough else []),
@@ -62,8 +64,9 @@ def run(tier, seed, only=None):
         'traced kernels': 'k_sqlite_mode / k_pg_mode (64 paths each): serializable, optimistic, immediate, a plain statement first, a lock request '
                           '(cache.immediate set as the locking lookups do), commit() in between: symbolic booleans seen by the real code; '
                           'k_builder: nowait, skip_locked, LIMIT present, dialect in {base SQLBuilder, PostgreSQL, SQLite}',
-        'paths': 'quick: 960 option combinations per SQLite harness (16 harnesses: lookup style x read-only/writing x optimistic/non-optimistic fixed per harness), '
-                 '960 per PostgreSQL harness (4); thorough: 2400 / 2400; every combination is explored exactly once (counted)',
+        'paths': 'quick: 1040 option combinations per SQLite harness (16 harnesses: lookup style x read-only/writing x optimistic/non-optimistic fixed per harness), '
+                 '1040 per PostgreSQL harness (4); thorough: 2880 / 2880; every combination is explored exactly once',
+        'code objects': 'the plain and the locking variant of every lookup style are built from the same lambda / generator code object (pony keys its translator and SQL caches by it)',
         'concrete tie': '8 kinds of first session x 3 kinds of rival, one schedule each, real sqlite3 + real threads (not solver-quantified)',
     }
     rep.assumptions = [
